@@ -77,7 +77,7 @@ def enumerate_is_positional(ex):
     return ok[0]
 
 
-def run(chk, F, tier):
+def run_structural(chk, F, tier):
     adt = F.adts[STATS]
     fields = [f["name"] for f in adt["variants"][0]["fields"]]
     chk.rule("S1.fields", floor=4 * 11 - 1, doc="Default/update_many/add/best_code treat every field of CodesStats")
@@ -85,7 +85,6 @@ def run(chk, F, tier):
     chk.rule("S2.offsets", floor=5, doc="parameter offset of each array family agrees between update_many and best_code")
     chk.rule("S3.best", floor=11, doc="best_code: minimum scan, candidate replaces (best, best_code) together, variant matches field")
     chk.rule("S4.merge", floor=3, doc="AddAssign -> add, Add -> +=, Sum -> fold(default, +)")
-    chk.rule("S5.lock", floor=4, doc="wrapper updates exactly once per successful read/write, with the right value, through Mutex::lock")
     known = set(FIELD) | {"total"}
     for f in fields:
         chk.expect("S1.fields", "known:" + f, f in known, "CodesStats has a field %r unknown to the field table (appendix A.3)" % f)
@@ -387,6 +386,10 @@ def run(chk, F, tier):
             okf = len(cc_) == 1 and cc_[0][1].endswith("ops::Add::add") and is_arg(cc_[0][2][0], 2) and is_arg(cc_[0][2][1], 3) and cps[0].ret == cc_[0][3]
     chk.expect("S4.merge", "Sum", okf, "Sum::sum is not iter.fold(Self::default(), |a, b| a + b)")
 
+
+
+def run_lock(chk, F, tier):
+    chk.rule("S5.lock", floor=4, doc="wrapper updates exactly once per successful read/write, with the right value, through Mutex::lock")
     # ---- wrapper locking
     wadt = F.adts["utils::stats::CodesStatsWrapper"]
     wf = {f["name"]: f["ty"] for f in wadt["variants"][0]["fields"]}
@@ -421,6 +424,16 @@ def run(chk, F, tier):
                 probs.append("update happens before the operation")
         chk.expect("S5.lock", "%s::%s" % (tr.split("::")[-1].split("<")[0], nm), not probs, "%s: %s" % (b["path"], "; ".join(sorted(set(probs)))),
                    sample={"method": b["path"]})
+
+
+
+
+def run(chk, F, tier):
+    # S1-S4: decided by interpreting the methods (sa/rules_c15s.py); by the structural rules when the interpreter cannot follow them
+    import rules_c15s
+    if not rules_c15s.run(chk, F, tier):
+        run_structural(chk, F, tier)
+    run_lock(chk, F, tier)
 
 
 def run_all(chk, fsets, tier):
